@@ -110,6 +110,176 @@ class Gen:
         return {"start": start, "end": end, "genes": genes, "min_length": min_length, "padding": padding}
 
 
+    def dna_acgt(self, n_codons):
+        rng = self.rng
+        s = "".join(rng.choice(BASES) for _ in range(rng.randint(0, 2)))
+        s += "".join(self.codon() for _ in range(n_codons))
+        s += "".join(rng.choice(BASES) for _ in range(rng.randint(0, 2)))
+        if rng.random() < 0.1:
+            chars = list(s)
+            for _ in range(rng.randint(1, 4)):
+                i = rng.randrange(len(chars))
+                chars[i] = chars[i].lower()
+            s = "".join(chars)
+        return s
+
+    def find_all_case(self):
+        """ a record with 0-5 genes, linear or circular, with no area, an inner area or an origin-spanning area """
+        rng = self.rng
+        genome = self.dna_acgt(rng.choice([8, 15, 25, 40, 60]))
+        n = len(genome)
+        circular = rng.random() < 0.5
+        genes = []
+        for _ in range(rng.choice([0, 1, 2, 3, 4, 5])):
+            strand = rng.choice([1, -1])
+            if circular and rng.random() < 0.12 and n > 12:
+                e = rng.randrange(1, n // 3)
+                s = rng.randrange(n - n // 3, n)
+                parts = [(s, n, strand), (0, e, strand)]
+                if strand == -1:
+                    parts.reverse()
+            else:
+                s = rng.randrange(0, n - 1)
+                e = rng.randrange(s + 1, min(n, s + rng.choice([6, 12, 30, n])) + 1)
+                parts = [(s, e, strand)]
+            if parts not in genes:
+                genes.append(parts)
+        r = rng.random()
+        if r < 0.35:
+            area = None
+        elif r < 0.7 or not circular or n < 12:
+            s = rng.randrange(0, n - 1)
+            area = [(s, rng.randrange(s + 1, n + 1), 1)]
+        else:
+            e = rng.randrange(1, n // 2)
+            s = rng.randrange(max(e, n // 2), n)
+            area = [(s, n, 1), (0, e, 1)]
+        max_overlap = rng.choice([0, 0, 1, 3, 10])
+        min_length = rng.choice([0, 3, 5, 6, 8, 9, 11, 12, 20, 60])
+        return {"genome": genome, "circular": circular, "genes": genes, "area": area,
+                "min_length": min_length, "max_overlap": max_overlap}
+
+
+def make_location(parts):
+    from antismash.common.secmet.locations import CompoundLocation, FeatureLocation
+    locs = [FeatureLocation(s, e, st) for s, e, st in parts]
+    return locs[0] if len(locs) == 1 else CompoundLocation(locs)
+
+
+def build_record(case):
+    """ a real Record with real CDS features (translation checks bypassed) and, if asked for, a real
+        SubRegion as the area; returns (record, area, genes in the record's order, len(area)) """
+    from Bio.Seq import Seq
+    from antismash.common.secmet import Record
+    from antismash.common.secmet.test.helpers import DummyCDS, DummySubRegion
+    record = Record(Seq(case["genome"]), transl_table=11)
+    if case["circular"]:
+        record.add_annotation("topology", "circular")
+    for i, parts in enumerate(case["genes"]):
+        record.add_cds_feature(DummyCDS(location=make_location(parts), locus_tag=f"g{i}", translation="MA"))
+    area = None
+    if case["area"] is not None:
+        area = DummySubRegion(location=make_location(case["area"]))
+        record.add_subregion(area)
+    return record, area
+
+
+def positions_of(loc):
+    out = []
+    for part in loc.parts:
+        rng_ = list(range(int(part.start), int(part.end)))
+        out.extend(reversed(rng_) if part.strand == -1 else rng_)
+    return out
+
+
+def find_all_oracle(case, record, area, features, starts, stops):
+    """ implementation-side, independent of the model: every returned feature is an ORF of the genome at
+        its location, overlaps no existing gene by more than max_overlap, lies inside the searched area
+        and carries the translation of its location with the first residue forced to M """
+    from Bio.Seq import Seq
+    genome = Seq(case["genome"])
+    gene_pos = [set(positions_of(g.location)) for g in record.get_cds_features()]
+    area_pos = set(positions_of(area.location)) if area is not None else None
+    for feature in features:
+        loc = feature.location
+        text = str(loc.extract(genome)).upper()
+        if len(text) % 3 or len(text) < 6:
+            return f"{loc}: extracted length {len(text)}"
+        codons = [text[i:i + 3] for i in range(0, len(text), 3)]
+        if codons[0] not in starts or codons[-1] not in stops or any(c in stops for c in codons[:-1]):
+            return f"{loc}: not start .. first stop"
+        if len(text) < case["min_length"]:
+            return f"{loc}: shorter than the minimum"
+        pos = positions_of(loc)
+        if len(set(pos)) != len(pos) or not all(0 <= x < len(genome) for x in pos):
+            return f"{loc}: positions outside the record or repeated"
+        for gene, gpos in zip(record.get_cds_features(), gene_pos):
+            if len(gpos & set(pos)) > case["max_overlap"]:
+                # class origin_gene_padding_window: the area spans the origin and the gene reaches into both of its
+                # parts (a gene spanning the origin, or one spanning the rest of the record)
+                at_origin = area is not None and len(area.location.parts) > 1 and \
+                    all(gpos & set(range(int(part.start), int(part.end))) for part in area.location.parts)
+                return (f"OVERLAP{'-ORIGIN' if at_origin else ''} {loc}: overlaps gene {gene.location} by "
+                        f"{len(gpos & set(pos))} > {case['max_overlap']}")
+        if area_pos is not None and not set(pos) <= area_pos:
+            return f"{loc}: outside the searched area"
+        expected = str(Seq(text).translate(to_stop=True, table=11))
+        expected = "M" + expected[1:]
+        if feature.translation != expected:
+            return f"{loc}: translation {feature.translation} is not {expected}"
+    return None
+
+
+def helper_misses_gene(record, area):
+    """ class predicate of the recorded finding area_misses_enclosing_gene: for some part of the area,
+        Record.get_cds_features_within_location(part, with_overlapping=True) leaves out a gene overlapping it """
+    if area is None:
+        return False
+    for part in area.location.parts:
+        found = record.get_cds_features_within_location(part, with_overlapping=True)
+        if any(cds.overlaps_with(part) and cds not in found for cds in record.get_cds_features()):
+            return True
+    return False
+
+
+def intergenic_oracle(case, areas):
+    """ independent of the model: free positions (outside every gene shrunk by the padding on both sides)
+        as a bitmap; every area lies in [start, end], has the minimum length and consists of free positions;
+        every free position whose maximal free run has the minimum length is covered; when every gene is
+        longer than twice the padding and the genes are ordered, the non-empty areas are exactly the
+        maximal free runs of at least the minimum length """
+    start, end, pad, minimum = case["start"], case["end"], case["padding"], case["min_length"]
+    genes = case["genes"]
+    ordered = all(a[0] <= b[0] for a, b in zip(genes, genes[1:]))
+    free = {x: all(not (gs + pad <= x < ge - pad) for gs, ge in genes) for x in range(start - 1, end + 1)}
+    runs = []
+    x = start
+    while x < end:
+        if free[x]:
+            y = x
+            while y < end and free[y]:
+                y += 1
+            runs.append((x, y))
+            x = y
+        else:
+            x += 1
+    for a, b in areas:
+        if not (start <= a and b <= end and b - a >= minimum):
+            return f"area {(a, b)} outside the range or too short"
+        if ordered and not all(free[x] for x in range(a, b)):
+            return f"area {(a, b)} contains a position inside a gene (beyond the padding)"
+    if not ordered:
+        return None
+    # (genes shorter than twice the padding split a free run into overlapping areas, each of which may fall under
+    #  the minimum: coverage of the free runs is only claimed - and proved - for longer genes)
+    if all(ge - gs > 2 * pad for gs, ge in genes):
+        want = [r for r in runs if r[1] - r[0] >= minimum]
+        got = [tuple(a) for a in areas if a[1] > a[0]]
+        if got != want:
+            return f"areas {got} are not the maximal free runs {want}"
+    return None
+
+
 def orf_oracle(case, locs, starts, stops):
     """ implementation-side: every reported location extracts (Biopython) to start .. stop without inner stop """
     if case["genome"] is None:
@@ -134,9 +304,69 @@ def orf_oracle(case, locs, starts, stops):
 
 RULE = ("scan_orfs: windows of codon-structured random genomes (start/stop codons enriched, lower case and ambiguity codes, "
         "0-2 bases of frame shift), full record / inner window / window starting before the origin, both strands, minimum length "
-        "on and around ORF lengths, with and without record length; find_intergenic_areas: 0-6 genes incl. nested, staggered and "
-        "(rarely) unsorted, padding 0-10, minimum placed on gap lengths.  Non-trivial = at least one ORF / one area reported; "
-        "distinct by flat encoding")
+        "on and around ORF lengths, with and without record length; the Gallina specification (is_orf, positions, minimum) is "
+        "evaluated on EVERY implementation output; find_intergenic_areas: 0-6 genes incl. nested, staggered and "
+        "(rarely) unsorted, padding 0-10, minimum placed on gap lengths, with a bitmap oracle for soundness/coverage/maximality; "
+        "find_all_orfs: real Records (ACGT/acgt genomes of 24-190 nt, linear and circular) with 0-5 real CDS features incl. "
+        "origin-spanning genes, no area / inner SubRegion / origin-spanning SubRegion, min_length 0-60, max_overlap 0-10, with an "
+        "oracle (Biopython extract/translate, gene overlap, area).  Non-trivial = at least one ORF / one area / one feature "
+        "reported; distinct by flat encoding")
+
+
+PENDING = []        # oracle failures inside the class of a recorded finding: decided after the correspondence
+PENDING_BASE = []   # alias of the list of cases, to know the index of the current case
+
+
+def enc_chars(text):
+    return [len(text)] + [ord(c) for c in text]
+
+
+def run_find_all(chk, gen, all_orfs, starts, stops):
+    case = gen.find_all_case()
+    record, area = build_record(case)
+    cds = record.get_cds_features()
+    flat = [PROP, 3] + enc_chars(case["genome"]) + [len(cds)]
+    for gene in cds:
+        flat += enc_pyloc(gene.location)
+    if area is None:
+        flat += [0]
+    else:
+        flat += [1] + enc_pyloc(area.location)
+    flat += [case["min_length"], case["max_overlap"]]
+    chk.count("find_all_orfs")
+    chk.count("find_all_area_" + ("none" if area is None else "origin" if len(area.location.parts) > 1 else "inner"))
+    nontrivial = False
+    try:
+        features = common.call_with_timeout(
+            lambda: all_orfs.find_all_orfs(record, area, min_length=case["min_length"], max_overlap=case["max_overlap"]))
+        out = [0, len(features)]
+        for feature in features:
+            out += enc_pyloc(feature.location) + enc_chars(feature.get_name()) + enc_chars(feature.translation)
+            if not (feature.locus_tag == feature.protein_id == feature.gene):
+                chk.violation("counterexample", "find_all_orfs: locus_tag, protein_id and gene of a new feature differ",
+                              {"theorem_or_correspondence": "create_feature_from_location", "input": case, "flat": flat})
+        bad = find_all_oracle(case, record, area, features, starts, stops)
+        if bad:
+            replay = {"theorem_or_correspondence": "C15_gaps / find_all_orfs", "input": case, "flat": flat,
+                      "implementation": [f"{f.location} {f.get_name()} {f.translation}" for f in features]}
+            if bad.startswith("OVERLAP-ORIGIN"):
+                # origin-spanning area, and the gene overlapped too much reaches into both parts of the area
+                chk.count("find_all_in_class_origin_gene_padding_window")
+                PENDING.append((len(PENDING_BASE), "origin_gene_padding_window", bad, replay))
+            elif bad.startswith("OVERLAP") and helper_misses_gene(record, area):
+                chk.count("find_all_in_class_area_misses_enclosing_gene")
+                PENDING.append((len(PENDING_BASE), "area_misses_enclosing_gene", bad, replay))
+            else:
+                chk.violation("counterexample", f"find_all_orfs returns a feature violating the property: {bad}", replay)
+        nontrivial = len(features) > 0
+        chk.count(f"find_all_features_{min(len(features), 3)}{'+' if len(features) >= 3 else ''}")
+        if any(len(f.location.parts) > 1 for f in features):
+            chk.count("find_all_wrapped_feature")
+    except Exception as exc:  # pylint: disable=broad-except
+        out = [1, err_code(exc)]
+        chk.count("find_all_error_" + common.ERR_NAME.get(out[1], str(out[1])))
+    sample = {"function": "find_all_orfs", **case, "implementation": out[:40]}
+    return flat, out, nontrivial, sample
 
 
 def run(chk):
@@ -145,11 +375,18 @@ def run(chk):
     from antismash.common import all_orfs
     starts, stops = set(all_orfs.START_CODONS), set(all_orfs.STOP_CODONS)
     gen = Gen(chk.rng, starts, stops)
-    total = 30000 if chk.tier == "quick" else 500000
+    total = 30000 if chk.tier == "quick" else 400000
+    exact_minimum_known = any(f["status"] == "known" and f["class"] == "orf_exact_minimum"
+                              for f in common.load_known_findings("C15"))
     cases, impl_outs = [], []
-    descr = {}
+    spec_cases, spec_of = [], []
+    del PENDING[:]
+    global PENDING_BASE  # pylint: disable=global-statement
+    PENDING_BASE = cases
+    listed = set(f["class"] for f in common.load_known_findings("C15") if f["status"] == "known")
     for i in range(total):
-        if chk.rng.random() < 0.7:
+        r = chk.rng.random()
+        if r < 0.62:
             case = gen.scan_case()
             rl = case["record_length"]
             flat = [PROP, 1, len(case["seq"])] + [ord(c) for c in case["seq"]] + \
@@ -164,6 +401,9 @@ def run(chk):
                     chk.violation("counterexample", f"scan_orfs reports a location that is not an ORF of the genome: {bad}",
                                   {"theorem_or_correspondence": "C15_coordinates / scan_orfs", "input": case, "flat": flat,
                                    "implementation": [str(l) for l in locs]})
+                # the Gallina specification on this output
+                spec_cases.append([PROP, 11] + flat[2:] + out)
+                spec_of.append((len(cases), case, [str(l) for l in locs]))
                 chk.count("scan_orfs")
                 chk.count(f"orfs_{min(len(locs), 3)}{'+' if len(locs) >= 3 else ''}")
                 if any(len(l.parts) > 1 for l in locs):
@@ -174,25 +414,62 @@ def run(chk):
                 chk.count("error_" + common.ERR_NAME.get(out[1], str(out[1])))
                 nontrivial = False
             sample = {"function": "scan_orfs", **case, "implementation": out}
-        else:
+        elif r < 0.9:
             case = gen.intergenic_case()
             genes = [types.SimpleNamespace(location=types.SimpleNamespace(start=s, end=e)) for s, e in case["genes"]]
             flat = [PROP, 2, case["start"], case["end"], len(genes)] + [x for g in case["genes"] for x in g] + \
                    [case["min_length"], case["padding"]]
             areas = all_orfs.find_intergenic_areas(case["start"], case["end"], genes, case["min_length"], case["padding"])
             out = [len(areas)] + [int(x) for a in areas for x in a]
+            bad = intergenic_oracle(case, areas)
+            if bad:
+                chk.violation("counterexample", f"find_intergenic_areas: {bad}",
+                              {"theorem_or_correspondence": "C15_intergenic_sound / C15_intergenic_complete", "input": case,
+                               "flat": flat, "implementation": areas})
             chk.count("find_intergenic_areas")
             nontrivial = len(areas) > 0 and len(genes) > 0
             sample = {"function": "find_intergenic_areas", **case, "implementation": areas}
+        else:
+            flat, out, nontrivial, sample = run_find_all(chk, gen, all_orfs, starts, stops)
         cases.append(flat)
         impl_outs.append(out)
         chk.note_case(flat, nontrivial, sample)
-        descr[len(cases) - 1] = sample
     model_outs = common.correspondence(chk, cases, impl_outs,
                                        describe=lambda flat: {"function": flat[1], "payload": flat[2:]})
-    chk.crosscheck_vm(cases, model_outs)
+    # decidable specification (C15/Model.v spec_scan: is_orf in bounded-quantifier form, record positions in
+    # transcription order, minimum length) on every scan_orfs output of the implementation
+    verdicts = common.run_driver(spec_cases)
+    suppressed = 0
+    for verdict, (idx, case, shown) in zip(verdicts, spec_of):
+        chk.count("spec_evaluated")
+        if len(verdict) != 3:
+            chk.violation("broken-correspondence", "the specification could not be evaluated on an implementation output",
+                          {"theorem_or_correspondence": "spec_scan", "input": case, "flat": cases[idx], "verdict": verdict})
+            break
+        spec_ok, guard, spec_partial = verdict
+        if spec_ok:
+            continue
+        if not guard and exact_minimum_known and spec_partial and impl_outs[idx] == model_outs[idx]:
+            suppressed += 1      # recorded finding orf_exact_minimum: in class, listed, implementation == faithful model
+            continue
+        chk.violation("counterexample", "scan_orfs: the output is not exactly the ORFs of the window (is_orf, at least the "
+                      "minimum length, positions on the record in transcription order, ordered by position)",
+                      {"theorem_or_correspondence": "C15_scan_sound_complete / C15_coordinates (spec_scan)", "input": case,
+                       "flat": cases[idx], "implementation": shown, "model": model_outs[idx],
+                       "spec_verdict_on_implementation_output": {"spec_ok": spec_ok, "guard_no_exact_minimum_orf": guard,
+                                                                 "spec_ok_with_length_above_minimum": spec_partial}})
+    in_class = {}
+    for idx, cls, bad, replay in PENDING:
+        if cls in listed and impl_outs[idx] == model_outs[idx]:
+            in_class[cls] = in_class.get(cls, 0) + 1     # in the class, class listed, implementation == faithful model
+            continue
+        chk.violation("counterexample", f"find_all_orfs returns a feature violating the property: {bad}", replay)
+    chk.extra["oracle_failures_in_known_classes"] = in_class
+    chk.extra["spec_scan_evaluations"] = len(verdicts)
+    chk.extra["spec_failures_in_known_class_orf_exact_minimum"] = suppressed
+    chk.crosscheck_vm(cases + spec_cases[:len(spec_cases) // 20], model_outs + verdicts[:len(spec_cases) // 20])
     known_findings(chk, all_orfs)
-    return chk.finish(RULE, trusted_extra=["Biopython Seq/extract used by the implementation-side ORF oracle"])
+    return chk.finish(RULE, trusted_extra=["Biopython Seq/extract/translate used by the implementation-side oracles"])
 
 
 def known_findings(chk, all_orfs):
@@ -204,6 +481,18 @@ def known_findings(chk, all_orfs):
             seq = finding["witness"]["seq"]
             minimum = finding["witness"]["minimum"]
             if len(all_orfs.scan_orfs(seq, 1, 0, minimum)) == 0 and len(all_orfs.scan_orfs(seq, 1, 0, minimum - 1)) == 1:
+                chk.known(finding["what_fails"])
+        if finding["class"] in ("area_misses_enclosing_gene", "origin_gene_padding_window"):
+            case = dict(finding["witness"])
+            case["genes"] = [[tuple(p) for p in g] for g in case["genes"]]
+            case["area"] = [tuple(p) for p in case["area"]]
+            record, area = build_record(case)
+            features = all_orfs.find_all_orfs(record, area, min_length=case["min_length"], max_overlap=case["max_overlap"])
+            bad = find_all_oracle(case, record, area, features, set(all_orfs.START_CODONS), set(all_orfs.STOP_CODONS))
+            if finding["class"] == "area_misses_enclosing_gene" and bad and bad.startswith("OVERLAP ") \
+                    and helper_misses_gene(record, area):
+                chk.known(finding["what_fails"])
+            if finding["class"] == "origin_gene_padding_window" and bad and bad.startswith("OVERLAP-ORIGIN"):
                 chk.known(finding["what_fails"])
 
 
